@@ -2,12 +2,14 @@
 package c08
 
 import (
+	"errors"
 	"fmt"
 	"math"
 	"math/rand"
 	"net/url"
 	"strings"
 
+	"github.com/bitcoin-sv/block-headers-service/verifharness/deco"
 	"github.com/bitcoin-sv/block-headers-service/verifharness/ev"
 	"github.com/bitcoin-sv/block-headers-service/verifharness/gen"
 	"github.com/bitcoin-sv/block-headers-service/verifharness/mb"
@@ -202,13 +204,97 @@ func (e *env) keys(rng *rand.Rand, n int) {
 	}
 }
 
+// relabel fault of the ingesting stack: the n-th UpdateState of the armed submission fails
+var relabel struct {
+	armed bool
+	n, at int
+	fired bool
+}
+
+// faultedListing: a reorganisation is interrupted by its second relabelling statement failing. Until the header is
+// delivered again the listing must still be a listing - heights 0, 1, 2, ... each exactly once, in order, whatever the page
+// size; after the redelivery it is compared with the model again.
+func (e *env) faultedListing(rng *rand.Rand) {
+	r := e.r
+	counter := 9000
+	mk := func(prev refmodel.Hash, bits uint32) refmodel.Hdr {
+		counter++
+		h := refmodel.Hdr{Prev: prev, Bits: bits}
+		gen.Fields(rng, &h, false, counter)
+		return h
+	}
+	// a side branch off a block 2..4 below the tip, one block shorter than needed; its next block overtakes
+	path := e.m.LongestPath()
+	if len(path) < 6 {
+		return
+	}
+	depth := 2 + rng.Intn(3)
+	prev := path[len(path)-1-depth].Hash
+	for i := 0; i < depth; i++ {
+		h := mk(prev, gen.BitsNormal)
+		if si := mb.Step(e.st, e.m, h); si.Res.Panic != nil || si.Res.Err != nil {
+			return
+		}
+		prev = h.HashOf()
+	}
+	over := mk(prev, gen.BitsNormal)
+	if _, _, reorg := e.m.Clone().Submit(over); !reorg {
+		return
+	}
+	relabel.armed, relabel.n, relabel.at, relabel.fired = true, 0, 2, false
+	res := e.st.Add(over)
+	relabel.armed = false
+	if !relabel.fired || res.Panic != nil || res.Err == nil {
+		return
+	}
+	r.Count("listings_after_an_interrupted_reorganisation", 1)
+	for _, b := range []int{1, 2, 3, 7, 1000} {
+		var got []entry
+		key := ""
+		for pages := 0; pages < len(e.m.Order)+5; pages++ {
+			code, p, msg := e.fetch(b, key)
+			if code != 200 {
+				e.violate("faulted-listing|status", fmt.Sprintf("after an interrupted reorganisation: page request (batchSize=%d, key=%q) -> %d %s", b, key, code, msg), map[string]any{"batchSize": b})
+				return
+			}
+			got = append(got, p.Content...)
+			key = p.Page.LastEvaluatedKey
+			if key == "" {
+				break
+			}
+		}
+		for i, en := range got {
+			if en.BlockHeight != int64(i) {
+				e.violate("faulted-listing|heights-not-consecutive", fmt.Sprintf("after an interrupted reorganisation the walk with batchSize %d lists height %d at position %d (every height once, in order)", b, en.BlockHeight, i), map[string]any{"batchSize": b, "listed_heights_start": got[:min(len(got), 12)]})
+				return
+			}
+		}
+	}
+	// the peer delivers the header again
+	if si := mb.Step(e.st, e.m, over); si.Res.Panic != nil || si.Res.Code() != mb.WantCode(si.Outcome) {
+		r.Count("stores_skipped_ingest_divergence", 1)
+		e.failed = true
+		return
+	}
+	e.walk(1+rng.Intn(4), "", 0, "after-redelivery", nil)
+}
+
 func body(r *ev.Run) {
-	r.Rule("stores = seeded random histories (pairwise distinct merkle roots; forks at many heights, stale siblings at listed heights, orphans, reorganisations); plus one chain of 2081 blocks (after a reorganisation over 2050 heights) walked with page sizes 1, 499..501, 1000, 1001, 2000, 2001, n-1..n+1, 5000, 10^6, 2^31-1, 2^31, 2^32, 2^40 (these also on every third store, from the start and from a key in the middle); per store: a complete walk for EVERY batch size 1..n+2 (n = longest-chain length), batchSize 0 (must answer 200 or 4xx), every stored merkle root as starting key (longest: the rest of the chain; stale/orphan: 409), unknown keys and near misses of stored roots - upper case, a digit cut or appended, leading zeros cut, 0x-prefixed, byte-reversed - (404), walks with restarts of the service between pages, and walks interleaved with ingestion of 1-3 new tip headers between pages. evaluations = complete walks; distinct = (store index, batch size) walks; non-trivial = store has a stale or orphan header.")
+	r.Rule("stores = seeded random histories (pairwise distinct merkle roots; forks at many heights, stale siblings at listed heights, orphans, reorganisations); plus one chain of 2081 blocks (after a reorganisation over 2050 heights) walked with page sizes 1, 499..501, 1000, 1001, 2000, 2001, n-1..n+1, 5000, 10^6, 2^31-1, 2^31, 2^32, 2^40 (these also on every third store, from the start and from a key in the middle); per store: a complete walk for EVERY batch size 1..n+2 (n = longest-chain length), batchSize 0 (must answer 200 or 4xx), every stored merkle root as starting key (longest: the rest of the chain; stale/orphan: 409), unknown keys and near misses of stored roots - upper case, a digit cut or appended, leading zeros cut, 0x-prefixed, byte-reversed - (404), walks after a reorganisation was interrupted by its second relabelling statement failing (heights 0,1,2,... each once, for page sizes 1,2,3,7,1000; compared with the model again after the redelivery), walks with restarts of the service between pages, and walks interleaved with ingestion of 1-3 new tip headers between pages. evaluations = complete walks; distinct = (store index, batch size) walks; non-trivial = store has a stale or orphan header.")
 	r.Assume("merkle roots pairwise distinct (as the statement requires)", "interleaved ingestion only extends the tip", "SQLite only")
 	r.Require("complete_walks", 300)
 	r.Require("keys_non_longest_409", 20)
 	mb.ForbiddenHeaders()
-	st, err := rig.New(rig.Options{Dir: r.Scratch})
+	st, err := rig.New(rig.Options{Dir: r.Scratch, WrapHeaders: deco.Wrap(&deco.Hooks{Before: func(op string, _ bool, _ string) error {
+		if op == "UpdateState" && relabel.armed {
+			relabel.n++
+			if relabel.n == relabel.at {
+				relabel.fired = true
+				return errors.New("verif: injected relabel failure")
+			}
+		}
+		return nil
+	}})})
 	if err != nil {
 		r.Violate("harness|rig", err.Error(), "", nil)
 		return
@@ -333,6 +419,9 @@ func body(r *ev.Run) {
 						r.Count("interleaved_extensions", 1)
 					}
 				})
+			}
+			if i%2 == 0 && !e.failed {
+				e.faultedListing(rng)
 			}
 			// the page key is all a client carries from one request to the next: the service may be restarted in between
 			if i%4 == 1 && !e.failed {
